@@ -659,6 +659,14 @@ FitProblem make_fit(const Json &d) {
 		p.coords.push_back(c);
 	}
 	p.smoothing.assign(1, smooth);
+	if (d.has("smooth_vec")) {   // per-dimension smoothing strengths (zeros allowed)
+		p.smoothing.clear();
+		for (uint32_t i = 0; i < p.ndim; i++) p.smoothing.push_back(d["smooth_vec"][i].num());
+	}
+	// coarse axis units: knots and abscissas of every dimension multiplied by the same factor
+	double ascale = d.getd("axis_scale", 1.0);
+	if (ascale != 1.0)
+		for (uint32_t i = 0; i < p.ndim; i++) { for (auto &v : p.knots[i]) v *= ascale; for (auto &v : p.coords[i]) v *= ascale; }
 	size_t total = 1;
 	for (auto &c : p.coords) total *= c.size();
 	p.idx.assign(p.ndim, {});
@@ -667,9 +675,9 @@ FitProblem make_fit(const Json &d) {
 	for (size_t row = 0; row < total; row++) {
 		size_t rem = row;
 		for (int dd = (int)p.ndim - 1; dd >= 0; dd--) { ix[(size_t)dd] = (unsigned)(rem % p.coords[(size_t)dd].size()); rem /= p.coords[(size_t)dd].size(); }
-		double t = p.coords[p.monodim][ix[p.monodim]];
+		double t = p.coords[p.monodim][ix[p.monodim]] / ascale;
 		double other = 0;
-		for (uint32_t dd = 0; dd < p.ndim; dd++) if (dd != p.monodim) other += std::sin(3 * p.coords[dd][ix[dd]] + phase);
+		for (uint32_t dd = 0; dd < p.ndim; dd++) if (dd != p.monodim) other += std::sin(3 * p.coords[dd][ix[dd]] / ascale + phase);
 		double v;
 		if (data == "increasing") v = 1 + 2 * t + t * t + 0.2 * other * 0 + 0.5 * (other + (double)p.ndim);
 		else if (data == "noisy_increasing") v = 1 + 3 * t + 0.3 * other + 0.4 * r.normal();
@@ -693,7 +701,9 @@ FitProblem make_fit(const Json &d) {
 		for (uint32_t dd = 0; dd < p.ndim; dd++) p.idx[dd].push_back(0);
 		p.values.push_back(1); p.weights.push_back(1);
 	}
-	p.expect_inactive = (data == "increasing" && smooth == 0 && sparse == 0);
+	bool any_smooth = false;
+	for (double v : p.smoothing) if (v != 0) any_smooth = true;
+	p.expect_inactive = (data == "increasing" && !any_smooth && sparse == 0);
 	return p;
 }
 
@@ -847,6 +857,23 @@ struct SchedHarness : Harness {
 			prob["smooth"] = Json(smooth);
 			prob["porder"] = Json(1 + (int)gen.below(3));   // clipped to the spline order per dimension in make_fit
 			prob["sparse"] = Json(sparse ? 0.3 : 0.0);
+			// per-dimension smoothing (some dimensions unpenalised), coarse axis units, identical grids in all
+			// dimensions: configurations in which the change of basis of the monotonic dimension can go wrong
+			if (!sparse && smooth > 0 && gen.chance(0.4)) {
+				Json sv = Json::array();
+				bool any = false;
+				for (int i = 0; i < ndim; i++) { bool on = gen.chance(0.5); any = any || on; sv.push(Json(on ? smooth : 0.0)); }
+				if (!any) sv[(size_t)prob.geti("monodim")] = Json(smooth);
+				prob["smooth_vec"] = sv;
+			}
+			// (not on sparse grids: the penalty that keeps those full rank shrinks like 1/h^(2*porder))
+			if (!sparse && gen.chance(0.25)) prob["axis_scale"] = Json(gen.chance(0.5) ? 1e3 : 1e6);
+			if (ndim >= 2 && gen.chance(0.3)) {
+				Json o2 = Json::array(), nc2 = Json::array(), np2 = Json::array();
+				for (int i = 0; i < ndim; i++) { o2.push(o[(size_t)0]); nc2.push(nc[(size_t)0]); np2.push(np[(size_t)0]); }
+				prob["order"] = o2; prob["ncoef"] = nc2; prob["npts"] = np2;
+				prob["same_grid"] = Json(true);
+			}
 			est_len = 200;
 		}
 		plan["problem"] = prob;
@@ -1063,7 +1090,51 @@ struct SchedHarness : Harness {
 		}
 		// --- C10: monotone along monodim
 		check_monotone(p, fr, *table, ctx, capped1);
+		check_against_unconstrained(p, fr, ctx, capped1);
 		if (o.preemptions > 0 || o.spurious_delivered > 0 || ls > 0) ctx.seen("nontrivial", hash_json(plan));
+	}
+
+	// C10, second sentence, against the library's own unconstrained fit of the same problem: when that
+	// solution is non-negative and non-decreasing along monodim *with margin*, the constraint is inactive
+	// and the monotonic fit must return the same coefficients up to rounding.
+	void check_against_unconstrained(const FitProblem &p, const FitResult &fr, RunCtx &ctx, bool capped) {
+		double smax = 0;
+		for (double v : p.smoothing) smax = std::max(smax, v);
+		if (smax > 1e3) return;                       // conditioning: see DESIGN 11.2
+		FitProblem q = p;
+		q.monodim = photospline::splinetable<>::no_monodim;
+		FitResult pl;
+		G.canonical_only = true;
+		SchedConfig s2; s2.policy = "oldest";
+		SchedOutcome o2 = Sched::run(s2, nullptr, [&]() { pl = run_fit(q); });
+		G.canonical_only = false;
+		if (o2.kind != SchedOutcome::OK || !pl.ok || pl.coef.size() != fr.coef.size()) return;
+		uint32_t md = p.monodim;
+		uint64_t n = fr.naxes[md], st = fr.strides[md];
+		double cmax = 0;
+		for (float v : pl.coef) { if (!std::isfinite(v)) return; cmax = std::max(cmax, (double)std::fabs(v)); }
+		if (cmax == 0) return;
+		double margin = 2e-2 * cmax;
+		for (size_t base = 0; base < pl.coef.size(); base++) {
+			if ((base / st) % n != 0) continue;
+			if (pl.coef[base] < margin) return;
+			for (uint64_t j = 1; j < n; j++) if (pl.coef[base + j * st] - pl.coef[base + (j - 1) * st] < margin) return;
+		}
+		ctx.count("probe:compared_with_unconstrained_fit");
+		bool other_dim_penalised = false;
+		for (uint32_t dd = 0; dd < p.ndim; dd++) {
+			double sv = p.smoothing.size() > 1 ? p.smoothing[dd] : p.smoothing[0];
+			if (dd != md && sv != 0) other_dim_penalised = true;
+		}
+		double worst = 0; size_t wi = 0;
+		for (size_t k = 0; k < fr.coef.size(); k++) { double dlt = std::fabs((double)fr.coef[k] - (double)pl.coef[k]); if (dlt > worst) { worst = dlt; wi = k; } }
+		ctx.stats->max(other_dim_penalised ? "unconstrained_diff_e6_otherdim" : "unconstrained_diff_e6", (int64_t)(1e6 * worst / cmax));
+		if (worst > 2e-3 * cmax) {
+			char d[260];
+			snprintf(d, sizeof d, "the unconstrained fit is non-negative and increasing along dimension %u with margin, yet the monotonic fit differs: coefficient %zu is %.9g instead of %.9g (max|c|=%.4g)",
+			         md, wi, (double)fr.coef[wi], (double)pl.coef[wi], cmax);
+			ctx.violate(std::string("C10|differs_from_unconstrained_fit|fit|") + (capped ? "solver_at_iteration_cap" : "converged") + (other_dim_penalised ? "|other_dimension_penalised" : "|penalty_only_along_monodim_or_none"), d);
+		}
 	}
 
 	void check_monotone(const FitProblem &p, const FitResult &fr, const photospline::splinetable<> &t, RunCtx &ctx, bool capped) {
